@@ -304,6 +304,17 @@ def rs_case(c, r, live, deep, cmp, errs):
     cmp.mism.append({"clause": "unmerge_of_merge", "detail": {"shape": ints(out.shape),
                                                              "code": out.reshape(-1)[:64].tolist()}})
   cmp.tensor("unmerge_out", out, r["out"], live)
+  # the same round trip with parameters kept in a NARROWER dtype than the updates (bfloat16 weights, float32
+  # gradients): what merge/pad/unmerge deliver are the update's values, bit for bit, in the update's dtype
+  g32 = jnp.asarray(np.asarray(x, np.float32) * np.float32(1.0 + 2.0 ** -12))
+  pbf = {"w": jnp.zeros(shape, jnp.bfloat16)}
+  m2, _ = mtx.update({"w": g32}, mtx.init(pbf), pbf)
+  u2, _ = utx.update(m2, utx.init(pbf), pbf)
+  cmp.n += 1
+  if (str(m2["w"].dtype) != "float32" or str(u2["w"].dtype) != "float32"
+      or not np.array_equal(np.asarray(u2["w"]), np.asarray(g32))):
+    cmp.mism.append({"clause": "unmerge_of_merge_with_narrower_parameter_dtype",
+                     "detail": {"dtypes": [str(m2["w"].dtype), str(u2["w"].dtype)]}})
   if bs >= 2:
     acc2, _, err2 = rejected_explicitly(lambda: sh.apply(sh.Options(block_size=bs)).init({"w": merged["w"]}))
     if not acc2 and err2["kind"] != "explicit":
